@@ -380,9 +380,14 @@ pub enum Path {
     GetMutNoWrite,
     EntryReplace,
     EntryRemove,
+    /// the same operations through the GenericReadStorage / GenericWriteStorage traits
+    GenericGet,
+    GenericGetMut,
+    GenericInsert,
+    GenericRemove,
 }
 
-pub const ALL_PATHS: [Path; 18] = [
+pub const ALL_PATHS: [Path; 22] = [
     Path::Get,
     Path::GetMut,
     Path::Contains,
@@ -401,6 +406,10 @@ pub const ALL_PATHS: [Path; 18] = [
     Path::GetMutNoWrite,
     Path::EntryReplace,
     Path::EntryRemove,
+    Path::GenericGet,
+    Path::GenericGetMut,
+    Path::GenericInsert,
+    Path::GenericRemove,
 ];
 
 /// Outcome of one access, normalised so a model can predict it.
@@ -496,7 +505,17 @@ where
 
     fn register(&self, w: &mut World, how: u8) {
         // no thread pools under Miri (worker threads would be reported as leaks)
-        let how = if cfg!(miri) { how % 4 } else { how % 6 };
+        let mut how = if cfg!(miri) { [0u8, 1, 2, 3, 6, 7][(how % 6) as usize] } else { how % 8 };
+        if how >= 6 {
+            if w.has_value::<specs::storage::MaskedStorage<C>>() {
+                how -= 4; // never replace an existing storage: fall back to the plain setup paths
+            } else {
+                // the storage is put into the world as a bare resource first; system-data setup must
+                // still make it known to the world (deletion has to purge it)
+                w.insert(specs::storage::MaskedStorage::<C>::new(Default::default()));
+                how -= 4;
+            }
+        }
         match how {
             0 => w.register::<C>(),
             1 => w.register_with_storage::<_, C>(Default::default),
@@ -548,6 +567,51 @@ where
                 r
             }
             Path::Contains => Out::Bool(w.write_storage::<C>().contains(e)),
+            Path::GenericGet => {
+                use specs::storage::GenericReadStorage;
+                let s = w.read_storage::<C>();
+                let r = match GenericReadStorage::get(&s, e) {
+                    Some(c) => Out::Found(c.observe()),
+                    None => Out::Absent,
+                };
+                r
+            }
+            Path::GenericGetMut => {
+                use specs::storage::GenericWriteStorage;
+                let mut s = w.write_storage::<C>();
+                let r = match GenericWriteStorage::get_mut(&mut &mut s, e) {
+                    Some(mut c) => {
+                        c.access_mut().set_payload(payload);
+                        Out::Found(c.observe())
+                    }
+                    None => Out::Absent,
+                };
+                r
+            }
+            Path::GenericInsert => {
+                use specs::storage::GenericWriteStorage;
+                let mut s = w.write_storage::<C>();
+                let (c, snap) = C::make(payload);
+                c.given();
+                match GenericWriteStorage::insert(&mut s, e, c) {
+                    Ok(Some(old)) => {
+                        old.returned();
+                        Out::InsOk(Some(old.snap()), snap)
+                    }
+                    Ok(None) => Out::InsOk(None, snap),
+                    Err(_) => Out::InsErr(snap),
+                }
+            }
+            Path::GenericRemove => {
+                use specs::storage::GenericWriteStorage;
+                let mut s = w.write_storage::<C>();
+                if payload % 2 == 0 {
+                    GenericWriteStorage::remove(&mut s, e);
+                } else {
+                    GenericWriteStorage::remove(&mut &mut s, e);
+                }
+                Out::Absent
+            }
             Path::GetMutNoWrite => {
                 let mut s = w.write_storage::<C>();
                 let r = match s.get_mut(e) {
